@@ -25,6 +25,14 @@ def centres(ncent):
     return [(30.0 + 40.0 * k, -20.0 + 25.0 * (k % 3)) for k in range(ncent)]
 
 
+def random_window(ncent):
+    """window of the random generator: hugs the real centres (+-6 deg) so that no random point can be nearer to
+    the extra, far-away centre of the empty-centre scenario than to a real one"""
+    cent = centres(ncent)
+    ras, decs = [c[0] for c in cent], [c[1] for c in cent]
+    return (min(ras) - 6.0, max(ras) + 6.0, max(-90.0, min(decs) - 6.0), min(90.0, max(decs) + 6.0))
+
+
 def make_input(spec):
     """columns (numpy arrays, degrees) + kwargs for Catalog.from_dataframe, before the fault is applied.
     Record i belongs to centre near[i]; every centre has at least one record when n >= ncent."""
@@ -242,9 +250,7 @@ def create(spec, yaw):
     if spec["source"] == "random":
         # the window hugs the real centres (+-6 deg), so that no random point can be nearer to the extra,
         # far-away centre of the empty-centre scenario than to a real one
-        ras, decs = [c[0] for c in cent], [c[1] for c in cent]
-        gen = yaw.randoms.BoxRandoms(min(ras) - 6.0, max(ras) + 6.0, max(-90.0, min(decs) - 6.0), min(90.0, max(decs) + 6.0),
-                                     seed=spec["dseed"])
+        gen = yaw.randoms.BoxRandoms(*random_window(spec["ncent"]), seed=spec["dseed"])
         kw.pop("patch_name", None)
         return yaw.Catalog.from_random(spec["cache"], gen, spec["n"], **kw)
     kw.update(ra_name="ra", dec_name="dec")
